@@ -84,6 +84,9 @@ def annotate_citations(
         if offset_updater:
             start = offset_updater.update(start, bisect_right)
             end = offset_updater.update(end, bisect_left)
+            # an empty span whose position carries inserted source material
+            # is translated to start > end; keep it empty and in place
+            end = max(start, end)
 
         # handle overlaps
         if start < last_end:
